@@ -68,6 +68,16 @@ def rule_del(ctx, rep):
                       "unlink stores %s" % ir.expr_str(e), [u.where()])
 
 
+def rule_replace_old(ctx, rep):
+    """the node replaced by cds_list_replace_rcu keeps both pointers (readers standing on it continue into the list)"""
+    f = wfn(ctx, "w_list_replace_rcu")
+    rep.touch(f)
+    sts = [s for s in f.all_insts() if s.op == "store" and s.d["ap"]["base"] == ["a", 0]]
+    rep.check(not sts, "C18.del", "w_list_replace_rcu.old-untouched", "the replaced node is not written (its forward pointer still leads into the list)",
+              "cds_list_replace_rcu writes the replaced node (%s): a reader standing on it is derailed / loops" % ", ".join(sorted(set(str(pat.last_field(s.d["ap"])) for s in sts))),
+              [s.where() for s in sts[:2]])
+
+
 def trav_fns(ctx):
     return [f for f in W(ctx).defined() if f.name.startswith("w_trav_")]
 
@@ -82,8 +92,8 @@ def rule_trav(ctx, rep):
         fw = [l for l in lds if pat.last_field(l.d["ap"]) in FWD]
         pv = [l for l in lds if pat.last_field(l.d["ap"]) in PREV]
         pat.require(fw, "%s: no forward-pointer load" % tag)
-        bad = [l for l in fw if not (l.d["order"] in ("acquire", "seq_cst") or l.d.get("vol"))]
-        rep.check(not bad, "C18.trav", tag + ".consume", "all %d forward-pointer loads are consume/acquire (or volatile) loads" % len(fw),
+        bad = [l for l in fw if not (l.d["order"] != "na" or l.d.get("vol"))]
+        rep.check(not bad, "C18.trav", tag + ".consume", "all %d forward-pointer loads are atomic (consume/acquire, or relaxed with dependency ordering) or volatile loads" % len(fw),
                   "a traversal loads a forward pointer with a plain load: the compiler may reload or speculate it", [b.where() for b in bad])
         rep.check(not pv, "C18.trav", tag + ".no-prev", "no `prev` pointer is read by a forward traversal", "traversal reads a prev pointer (not RCU-safe: prev is not kept consistent for readers)", [p.where() for p in pv])
         # one load of the forward pointer per iteration
@@ -127,10 +137,13 @@ def rule_inv(ctx, rep):
     rep.ok("C18.inv", "inventory", "all %d RCU list primitives/macros of the headers are instantiated by the witness: %s" % (len(names), sorted(names)), [])
 
 
+THOROUGH_CONFIGS = [("default", ()), ("dereference-volatile", ("-DURCU_DEREFERENCE_USE_VOLATILE=1",))]
+
 RULES = [
     ("C18.inv", rule_inv),
     ("C18.pub", rule_pub),
     ("C18.del", rule_del),
+    ("C18.del", rule_replace_old),
     ("C18.trav", rule_trav),
 ]
 FLOORS = {}
